@@ -233,6 +233,144 @@ func runC16(r *Result, thorough bool) {
 	for s := 0; s < nrw; s++ {
 		storeRewriteCase(r, rng, s)
 	}
+	// --- (d) what Reset writes (roots, peer sets, the frame) is what a reopened store returns, also
+	// after later validator-set entries were recorded
+	nrs := 2
+	if thorough {
+		nrs = 12
+	}
+	for s := 0; s < nrs; s++ {
+		storeResetCase(r, rng, s)
+	}
+}
+
+// storeResetCase: a Badger store started from genesis is Reset from a frame of a history with a
+// joiner (roots for participants the database has never heard of), later validator sets are
+// recorded, the store is closed and reopened: every root of the frame, every shipped validator
+// set and the frame itself must be read back identically.
+func storeResetCase(r *Result, rng *rand.Rand, id int) {
+	o := genOpts{n0: 3, extra: 1 + rng.Intn(2), steps: 500 + rng.Intn(200), txRate: 2, joinEarly: true, late: true, ring: true}
+	d := newDag(rng, o.n0, o.extra)
+	scratch := &Case{ID: "gen"}
+	ref := newNode(d, 0, 10000, "")
+	generate(rng, o, scratch, ref)
+	defer ref.close()
+	if len(ref.blocks) < 2 {
+		return
+	}
+	// prefer a frame that carries a root for a joiner
+	var fr *hg.Frame
+	for k := len(ref.blocks) - 1; k >= 0 && fr == nil; k-- {
+		f, err := ref.store.GetFrame(ref.blocks[k].RoundReceived())
+		if err != nil {
+			continue
+		}
+		for _, p := range d.parts[o.n0:] {
+			if rt, ok := f.Roots[p.hex]; ok && len(rt.Events) > 0 {
+				fr = f
+			}
+		}
+	}
+	if fr == nil {
+		if os.Getenv("DBGLATE") != "" {
+			ps, _ := ref.store.GetAllPeerSets()
+			ks := []int{}
+			for k := range ps {
+				ks = append(ks, k)
+			}
+			fmt.Fprintf(os.Stderr, "DBG16 events=%d blocks=%d lastRound=%d peersets=%v\n", len(d.events), len(ref.blocks), ref.store.LastRound(), ks)
+		}
+		r.Inc("reset_cases_without_joiner_root", 1)
+		return
+	}
+	var f2 hg.Frame
+	jsonCopy(fr, &f2)
+	dir := tmpBadger(fmt.Sprintf("c16rs-%d", id))
+	defer os.RemoveAll(filepath.Dir(dir))
+	cache := 50 + rng.Intn(200)
+	st, err := hg.NewBadgerStore(cache, dir, false, nil)
+	if err != nil {
+		panic(err)
+	}
+	what := func(s string, a ...interface{}) {
+		r.Violate("impl-violation", fmt.Sprintf("store reset case %d (%s): ", id, o.String())+fmt.Sprintf(s, a...), "store-reset:"+strings.SplitN(s, " ", 2)[0], map[string]interface{}{"options": o.String()})
+	}
+	if err := st.SetPeerSet(0, peers.NewPeerSet(d.genesis())); err != nil {
+		st.Close()
+		return
+	}
+	if err := st.Reset(&f2); err != nil {
+		what("Reset failed: %v", err)
+		st.Close()
+		return
+	}
+	// later entries: everybody in the repertoire of the frame, then plus a stranger
+	all := []*peers.Peer{}
+	seen := map[string]bool{}
+	for _, ps := range f2.PeerSets {
+		for _, p := range ps {
+			if !seen[p.PubKeyString()] {
+				seen[p.PubKeyString()] = true
+				all = append(all, p)
+			}
+		}
+	}
+	maxRound := f2.Round
+	for rd := range f2.PeerSets {
+		if rd > maxRound {
+			maxRound = rd
+		}
+	}
+	st.SetPeerSet(maxRound+3, peers.NewPeerSet(all))
+	st.SetPeerSet(maxRound+9, peers.NewPeerSet(append(append([]*peers.Peer{}, all...), newParticipants(rng, 1)[0].peer)))
+	st.Close()
+	st2, err := hg.NewBadgerStore(cache, dir, false, nil)
+	if err != nil {
+		what("reopen failed: %v", err)
+		return
+	}
+	defer st2.Close()
+	for pk, want := range fr.Roots {
+		got, err := st2.GetRoot(pk)
+		if err != nil {
+			what("root of a participant of the frame is missing after reopen: %v", err)
+			continue
+		}
+		if dbr, err := st2.VerifDBGetRoot(pk); err == nil {
+			hd, _ := dbr.Hash()
+			hw0, _ := want.Hash()
+			if hd != hw0 {
+				what("root in the database differs from the frame's after Reset and later validator sets (%d events shipped, %d in the database)", len(want.Events), len(dbr.Events))
+			}
+		}
+		hw, _ := want.Hash()
+		hgot, _ := got.Hash()
+		if hw != hgot {
+			what("root read back after Reset, later validator sets and reopen differs from the frame's (%d events shipped, %d read back)", len(want.Events), len(got.Events))
+		}
+	}
+	// (the validator sets shipped by the frame live in the persisted frame; BadgerStore.Reset records
+	// only the set of the frame's round in the peer-set table: not compared here)
+	if got, err := st2.VerifDBGetPeerSet(fr.Round); err != nil {
+		what("validator set of the frame's round is missing in the database after reopen: %v", err)
+	} else {
+		hw, _ := peers.NewPeerSet(fr.Peers).Hash()
+		hgot, _ := got.Hash()
+		if !bytes.Equal(hw, hgot) {
+			what("validator set of the frame's round read back after reopen differs from the frame's peers")
+		}
+	}
+	if got, err := st2.VerifDBGetFrame(fr.Round); err != nil { // (GetFrame is cache-only by design)
+		what("frame missing in the database after reopen: %v", err)
+	} else {
+		hw, _ := fr.Hash()
+		hgot, _ := got.Hash()
+		if !bytes.Equal(hw, hgot) {
+			what("frame read back after reopen has another hash")
+		}
+	}
+	r.Inc("reset_cases", 1)
+	r.Count(fmt.Sprintf("reset %d", id), true)
 }
 
 // storeRewriteCase: raw store API on Badger and in-memory stores with a small cache: a chain of
